@@ -55,7 +55,7 @@ class ExprMixin:
             return v.n
         if isinstance(v, Ref):
             o = st.obj(v)
-            if isinstance(o, (HArr, HArr2, HListArr, HListTup, HStr, HListStr, HListStruct)):
+            if isinstance(o, (HArr, HArr2, HListArr, HListTup, HStr, HListStr, HListStruct, HListArr2)):
                 return o.n
             if isinstance(o, (HDict, HSet)):
                 return o.size
@@ -754,6 +754,11 @@ class ExprMixin:
             if isinstance(o, HListTup):
                 idx = self.norm_index(st, node, self.eval_int(sl, st), o.n, "list index")
                 return Tup([Sc(k, z3.Select(c, idx)) for k, c in zip(o.kinds, o.cols)], o.names)
+            if isinstance(o, HListArr2):
+                idx = self.norm_index(st, node, self.eval_int(sl, st), o.n, "list index")
+                e = HArr2(o.kind, z3.Select(o.a, idx), z3.Select(o.lens, idx), o.m)
+                st.assume(e.n >= 0)
+                return st.alloc(e)
             if isinstance(o, HListStruct):
                 idx = self.norm_index(st, node, self.eval_int(sl, st), o.n, "list index")
                 items = []
